@@ -2,6 +2,7 @@ package main
 
 import (
 	"strings"
+	"verifharness/internal/registry"
 	"verifharness/internal/serve"
 
 	"verifharness/internal/allow"
@@ -118,6 +119,10 @@ func init() {
 		}
 		if allow.WitnessF20() {
 			run.KnownHits["F20"]++
+		}
+		// … and through the ServeMux, on containers with a past
+		if err := registry.CheckSlashServe(run, 3*n); err != nil {
+			return err
 		}
 		run.Extra["skipped_tables_F11"] = routing.SkippedBuild
 		return nil
